@@ -18,7 +18,7 @@ RULE = ("cases = (cube of 1-4 dims, 0-4 lookup-table extra coords: Quantity / Ti
         "different hash seeds and heap layouts (order stability); distinct by key; non-trivial = some slice is not "
         "the identity")
 ASSUMPTIONS = ["Quantity / Time / SkyCoord slicing themselves are dependencies (numpy selection, np_axis_sel)",
-               "meshed and 2-D SkyCoord tables and WCS-backed ExtraCoords are not generated",
+               "meshed and 2-D SkyCoord tables are not generated; WCS-backed ExtraCoords only with the cube's dimensionality, identity mapping and range slices (direct oracle)",
                "address-dependent ordering is observed by repetition in fresh processes (a runtime fact no model can exhibit)"]
 EPOCH = "2020-01-01T00:00:00"
 
@@ -87,6 +87,26 @@ def gen(tier, rng):
         cases.append({"key": key, "stratum": f"{len(tabs)}tables-depth{len(chain)}", "shape": shape, "tabs": tabs,
                       "chain": chain, "probe": False, "nontrivial": True,
                       "show": {"shape": shape, "extra_coords": tabs, "slices": chain}})
+    # WCS-backed ExtraCoords (a second FITS WCS of the cube's dimensionality, identity mapping), range slices only
+    for _ in range(150 if tier == "quick" else 3000):
+        nd = rng.choice([1, 2, 3])
+        shape = [rng.choice([3, 4, 5]) for _ in range(nd)]
+        chain, cur = [], list(shape)
+        for _d in range(rng.choice([1, 1, 2])):
+            its = []
+            for sz in cur:
+                a = rng.choice([None, 0, 1, -1, -sz, -sz - 2, sz - 1])
+                b = rng.choice([None, sz, -1, sz + 2, 2])
+                its.append(["s", a, b, None])
+            new = [len(range(sz)[slice(it[1], it[2])]) for sz, it in zip(cur, its)]
+            if 0 in new:
+                break
+            chain.append(its)
+            cur = new
+        if chain:
+            cases.append({"key": f"wcsec|{shape}|{chain}", "stratum": "wcs-backed", "shape": shape, "tabs": [], "chain": chain,
+                          "probe": False, "wcsec": True, "nontrivial": True,
+                          "show": {"shape": shape, "extra_coords": "WCS-backed", "slices": chain}})
     # order-stability probes: fresh interpreters
     nprobe = 24 if tier == "quick" else 200
     multi = [c for c in cases if len(c["tabs"]) >= 3][:nprobe]
@@ -115,10 +135,12 @@ def build(case):
         if kind == "q":
             cube.extra_coords.add(f"n{i}0", axes[0], _vals(kind, shape[axes[0]], seed) * u.m, physical_types=f"custom:n{i}0")
         elif kind == "time":
-            cube.extra_coords.add(f"n{i}0", axes[0], Time(EPOCH) + np.abs(_vals(kind, shape[axes[0]], seed)) * 64 * u.s)
+            cube.extra_coords.add(f"n{i}0", axes[0], Time(EPOCH) + np.abs(_vals(kind, shape[axes[0]], seed)) * 64 * u.s,
+                                  physical_types=(f"custom:n{i}0" if seed % 2 else None))
         elif kind == "sky1":
             v = _vals(kind, shape[axes[0]], seed)
-            cube.extra_coords.add((f"n{i}0", f"n{i}1"), axes[0], SkyCoord(np.abs(v) / 8 * u.deg, v / 16 * u.deg))
+            cube.extra_coords.add((f"n{i}0", f"n{i}1"), axes[0], SkyCoord(np.abs(v) / 8 * u.deg, v / 16 * u.deg),
+                                  physical_types=((f"custom:n{i}0", f"custom:n{i}1") if seed % 2 else None))
         else:
             cube.extra_coords.add((f"n{i}0", f"n{i}1"), tuple(axes),
                                   (_vals(kind, shape[axes[0]], seed) * u.m, _vals(kind, shape[axes[1]], seed + 1) * u.m),
@@ -176,7 +198,57 @@ def _child(case):
     return cube, cur
 
 
+def _run_wcsec(case):
+    """WCS-backed extra coords: every surviving element keeps the extra world coordinates of its source element"""
+    from astropy.wcs import WCS
+    from ndcube import NDCube, ExtraCoords
+    shape = tuple(case["shape"])
+    nd = len(shape)
+    cube = NDCube(np.arange(int(np.prod(shape))).reshape(shape), wcs=lin_wcs(nd))
+    w = WCS(naxis=nd)
+    w.wcs.ctype = ["ENER", "VELO", "WAVN"][:nd]
+    w.wcs.cunit = ["J", "m/s", "1/m"][:nd]
+    w.wcs.cdelt = [10.0, 100.0, 1000.0][:nd]
+    w.wcs.crpix = [1] * nd
+    w.wcs.crval = [5.0, 50.0, 500.0][:nd]
+    w.wcs.set()
+    ec = ExtraCoords(ndcube=cube)
+    ec.wcs = w
+    ec.mapping = tuple(range(nd))
+    cube._extra_coords = ec
+    why = []
+    try:
+        cur = cube
+        for its in case["chain"]:
+            cur = cur[Q.dec_items(its)]
+        src = np.arange(int(np.prod(shape))).reshape(shape)
+        for its in case["chain"]:
+            src = src[Q.dec_items(its)]
+        def world(c):
+            ll = c.extra_coords.wcs.low_level_wcs
+            g = np.indices(c.data.shape)
+            mp = [int(m) for m in c.extra_coords.mapping]
+            r = ll.pixel_to_world_values(*[g[c.data.ndim - 1 - m] for m in mp])
+            return [r] if ll.world_n_dim == 1 else list(r)
+        pw, cw = world(cube), world(cur)
+        idx = np.unravel_index(src.ravel(), shape)
+        if list(cur.extra_coords.wcs.world_axis_physical_types) != list(cube.extra_coords.wcs.world_axis_physical_types):
+            why.append("physical types / order of the WCS-backed extra coords changed")
+        for k, (a, b) in enumerate(zip(cw, pw)):
+            exp = b[idx].reshape(src.shape)
+            if not np.allclose(a, exp, rtol=1e-9, atol=1e-9):
+                bad = np.argwhere(~np.isclose(a, exp, rtol=1e-9, atol=1e-9))[0]
+                why.append(f"WCS-backed extra coordinate {k}: element {tuple(int(x) for x in bad)} reports {float(a[tuple(bad)])!r}, "
+                           f"its source element had {float(exp[tuple(bad)])!r}")
+                break
+    except Exception as e:  # noqa
+        why.append(f"slicing a cube with WCS-backed extra coords raised {exc_name(e)}: {str(e)[:100]}")
+    return {"out": {"t": "probe"}, "oracle": {"ok": not why, "why": "; ".join(why), "finding": None}}
+
+
 def run(case):
+    if case.get("wcsec"):
+        return _run_wcsec(case)
     if case["probe"]:
         return _run_probe(case)
     why = []
@@ -323,7 +395,7 @@ def _model_table(i, kind, axes, seed, shape):
 
 def coq_case(case, res):
     o = res["out"]
-    if case["probe"] or o["t"] == "probe":
+    if case["probe"] or case.get("wcsec") or o["t"] == "probe":
         return "mk (0)%Z (mkEc [] []) [] (OOk [] [] [] (0)%Z)"
     # tables in the order ExtraCoords.add keeps them: stable sort by first axis
     order = sorted(range(len(case["tabs"])), key=lambda i: case["tabs"][i][1][0])
